@@ -8,6 +8,7 @@ import (
 	"fmt"
 	"hash/fnv"
 	"os"
+	"reflect"
 	"sort"
 	"strconv"
 	"strings"
@@ -267,4 +268,33 @@ func Catch(f func()) (msg string) {
 	}()
 	f()
 	return ""
+}
+
+// NonZeroFields renders the non-zero exported fields of a struct value as
+// "Name=value ..." (used to put the bounds of a configuration into evidence).
+func NonZeroFields(v interface{}) string {
+	rv := reflect.ValueOf(v)
+	if rv.Kind() == reflect.Ptr {
+		rv = rv.Elem()
+	}
+	if rv.Kind() != reflect.Struct {
+		return fmt.Sprint(v)
+	}
+	var parts []string
+	for i := 0; i < rv.NumField(); i++ {
+		f := rv.Type().Field(i)
+		if f.PkgPath != "" || rv.Field(i).IsZero() {
+			continue
+		}
+		fv := rv.Field(i)
+		if (fv.Kind() == reflect.Slice || fv.Kind() == reflect.Map) && fv.Len() == 0 {
+			continue
+		}
+		if fv.Kind() == reflect.Func {
+			parts = append(parts, f.Name+"=set")
+			continue
+		}
+		parts = append(parts, fmt.Sprintf("%s=%v", f.Name, fv.Interface()))
+	}
+	return strings.Join(parts, " ")
 }
